@@ -187,6 +187,14 @@ def f_frag( ctx ):
         res.ok( src, fn, 'budget = per-request max_size, else the class attribute MAX_BYTES' )
     else:
         res.bad( src, fn, 'budget %s' % [ norm_text( d ) for d in bd ], 'the reply budget must be the per-request max_size or, by default, self.MAX_BYTES (user-alterable)' )
+    # the budget is read through the class at request time: an instance-level store ( self.MAX_BYTES = ... ) would freeze it per object, and a
+    # later change of Logix.MAX_BYTES (documented as user-alterable) would be ignored
+    cd_ = src.get( 'Logix' )
+    inst = [ s_ for s_ in ast.walk( cd_ ) if isinstance( s_, ( ast.Assign, ast.AugAssign )) and any( dotted( t_ ) == 'self.MAX_BYTES' for t_ in ( s_.targets if isinstance( s_, ast.Assign ) else [ s_.target ] )) ]
+    if inst:
+        res.bad( src, inst[0], inst[0], 'an instance attribute shadows the class-level reply budget: altering Logix.MAX_BYTES after the Message Router exists no longer limits the fragments' )
+    else:
+        res.ok( src, cd_, 'MAX_BYTES is only a class attribute (read at request time, user-alterable)' )
     # ---- progress asserted on the way to the return
     cfg = CFG( fn )
     prog = [ n for n in cfg.nodes if n.kind == 'stmt' and isinstance( n.stmt, ast.Assert ) and ( pmatch( n.stmt.test, '%s < %s' % ( BEG, END )) or pmatch( n.stmt.test, '%s > %s' % ( END, BEG ))) ]
@@ -364,4 +372,40 @@ def s_ext( ctx ):
         else:
             res.bad( src, s, '%s: with status %s the pre-loaded extended status survives to the reply' % ( norm_text( s ), ', '.join( '0x%02x' % v for v in kept )),
                      'status 0x06 (partial data) is a success too: keeping the pre-loaded extended status word makes every non-final fragment reply two octets longer, so an independent client reads type and data shifted' )
+    return res
+
+
+@rule( 'F-CLIENT', props=( 'C04', 'C12' ), floor=2 )
+def f_client( ctx ):
+    """client.read / client.write: the element count put into the request is the caller's `elements` argument, replaced only by a count spelled
+    in the path ( TAG[a-b] / TAG*n ); the byte offset is the caller's.  For a fragmented transfer `elements` is the length of the whole range,
+    not of the data carried by one fragment."""
+    res = Result( 'F-CLIENT' )
+    src = ctx.src( 'server/enip/client.py' )
+    for qn in ( 'client.read', 'client.write' ):
+        fn = src.get( qn )
+        M = Matcher()
+        pp = M.find( fn, '( _seg, _elm, _cnt ) = device.parse_path_elements( path )' )
+        if pp is None:
+            raise AnalysisError( '%s: parse of the path ( device.parse_path_elements ) not found' % qn )
+        CNT = M.name( '_cnt' )
+        stores = [ s for s in walk_no_nested( fn ) if isinstance( s, ( ast.Assign, ast.AugAssign )) and any(
+            isinstance( t, ast.Name ) and t.id == 'elements' for tg in ( s.targets if isinstance( s, ast.Assign ) else [ s.target ] ) for t in ast.walk( tg )) ]
+        bad = False
+        for s in stores:
+            g = src.parent.get( s )
+            if isinstance( s, ast.Assign ) and dotted( s.value ) == CNT and isinstance( g, ast.If ) and s in g.body and pmatch( g.test, '%s is not None' % CNT ) is not None:
+                res.ok( src, s, '%s: a count spelled in the path replaces the elements argument' % qn )
+            else:
+                bad = True
+                res.bad( src, s, '%s: %s' % ( qn, norm_text( s )), 'the request\'s element count must be the caller\'s `elements` (or the count spelled in the path): deriving it from the data of ONE fragment makes every Write Tag Fragmented tile at a non-zero offset invalid (elements < offset/size + len( data )) - only the first tile is stored' )
+        # the request carries exactly those locals
+        used = [ d for d in ast.walk( fn ) if isinstance( d, ast.Dict ) and any( try_fold( k ) == 'elements' for k in d.keys ) ]
+        for d in used:
+            kv = { try_fold( k ): v for k, v in zip( d.keys, d.values ) }
+            if dotted( kv.get( 'elements' )) == 'elements' and ( 'offset' not in kv or dotted( kv['offset'] ) == 'offset' ):
+                res.ok( src, d, '%s: request carries elements=elements%s' % ( qn, ', offset=offset' if 'offset' in kv else '' ))
+            else:
+                bad = True
+                res.bad( src, d, d, 'the request must carry the element count and byte offset it was asked for' )
     return res
